@@ -237,7 +237,12 @@ fn mutate_txs_proof(chain: &Chain, v1: &packed::SendTransactionsProofV1, a: &Att
             let mut all_sorted: Vec<Byte32> = txs.iter().map(|t| t.calc_tx_hash()).collect();
             all_sorted.sort();
             let mut bogus = 1000 + (a.val % 2) as u32;
-            let idx: Vec<u32> = all_sorted
+            // variant: the smuggled transactions get no index at all (more transactions than indices)
+            let no_index = (a.val / 5) % 3 == 0;
+            let idx: Vec<u32> = if no_index {
+                fb.proof().indices().into_iter().map(|v| Unpack::<u32>::unpack(&v)).collect()
+            } else {
+                all_sorted
                 .iter()
                 .map(|h| {
                     real_index.get(h).cloned().unwrap_or_else(|| {
@@ -245,7 +250,9 @@ fn mutate_txs_proof(chain: &Chain, v1: &packed::SendTransactionsProofV1, a: &Att
                         bogus
                     })
                 })
-                .collect();
+                .collect()
+            };
+            let junk = if no_index { 0 } else { junk };
             for q in 0..junk.min(smuggled.len() + 1) {
                 lem.push([0x40u8 + q as u8; 32].pack());
             }
